@@ -19,7 +19,7 @@ type c04Model struct {
 }
 
 var c04Lits = []struct{ src, text string }{
-	{"7", "7"}, {"\"s\"", "s"}, {"[9]", "9"}, {"2.5", "2.5"}, {"true", "1"},
+	{"7", "7"}, {"\"s\"", "s"}, {"nil", ""}, {"[9]", "9"}, {"2.5", "2.5"}, {"true", "1"},
 }
 
 func (m *c04Model) lookup(n byte) (*c04Binding, bool) {
@@ -99,7 +99,10 @@ func HarnessC04Scopes() {
 	data := map[string]any{}
 	// data pre-binds a symbolic subset of {a, b}
 	for _, n := range []byte{'a', 'b'}[:vParam("DATA")] {
-		switch vChoice("data."+string([]byte{n}), 3) {
+		switch vChoice("data."+string([]byte{n}), 4) {
+		case 3:
+			data[string([]byte{n})] = nil
+			m.bind(n, 2, "")
 		case 1:
 			data[string([]byte{n})] = 7
 			m.bind(n, 0, "7")
@@ -109,8 +112,11 @@ func HarnessC04Scopes() {
 		}
 	}
 	src := c04Stmt(m, "s1")
-	scope := vChoice("scope", 5)
+	scope := vChoice("scope", 6)
 	switch scope {
+	case 5:
+		src += "@if(false)q@elseif(true)"
+		m.push()
 	case 0:
 		src += "@if(true)"
 		m.push()
